@@ -74,6 +74,9 @@ def enc_consts(ctx, path, callee):
 
 
 def run(ctx):
+    # the codes this property names are the registry values (the rules below speak of them by name)
+    from rules import shared as _shc
+    _shc.error_code_values(ctx, "C11-e", ("QPACK_DECOMPRESSION_FAILED",))
     # string literals inside a field section: the Huffman table walk is shared with C15
     _c15.huffman_decode_rows(ctx, "C11-c")
     _c15.huffman_errors_propagate(ctx, "C11-c")
